@@ -16,6 +16,8 @@ from __future__ import annotations
 import itertools
 
 import ndn.encoding as enc
+from mc.ref import ndn_strict as ns
+from mc.ref import tlv_strict as ts
 from ndn.app_support.dispatcher import Dispatcher
 
 from mc.core import Acc
@@ -311,8 +313,8 @@ def reply_cases():
         eff = 4000 if lifetime is None else lifetime
         for dt in sorted({0, max(eff - 1, 0), eff, eff + 1, eff + 50}):
             for nrep in (1, 2):
-                for token in (None,):
-                    yield {'lifetime': lifetime, 'dt': dt, 'nrep': nrep}
+                for token in (None, 'aabb', ''):
+                    yield {'lifetime': lifetime, 'dt': dt, 'nrep': nrep, 'token': token}
 
 
 def run_reply(case):
@@ -327,6 +329,10 @@ def run_reply(case):
         app.attach_handler('/p', lambda name, ap, reply, ctx: kept.append((reply, ctx)))
         lt = case['lifetime']
         wire = bytes(enc.make_interest('/p/x', enc.InterestParam(nonce=5, lifetime=lt)))
+        token = case.get('token')
+        if token is not None:
+            # the Interest arrives inside a link-layer envelope carrying a PIT token: the reply carries it back
+            wire = ts.tlv(0x64, ts.tlv(0x62, bytes.fromhex(token)) + ts.tlv(0x50, wire))
         face.deliver(wire)
         loop.drain()
         if len(kept) != 1:
@@ -347,7 +353,14 @@ def run_reply(case):
             sent = face.sent[before:]
             obs.append((bool(r), len(sent)))
             written = len(sent) > 0
-            if written and sent != [data]:
+            if written and token is not None:
+                try:
+                    lp = ns.read_lp(sent[0])
+                    if len(sent) != 1 or lp['fragment'] != data or lp['pit_token'] != bytes.fromhex(token):
+                        viol.append(('C04|v2|reply|bytes-differ', f'reply with PIT token wrote something else than token + reply bytes in {case}'))
+                except ts.Malformed as e:
+                    viol.append(('C04|v2|reply|bytes-differ', f'reply envelope malformed ({e}) in {case}'))
+            elif written and sent != [data]:
                 viol.append(('C04|v2|reply|bytes-differ', f'reply wrote something else than the reply bytes in {case}'))
             if case['dt'] < eff and not written:
                 viol.append(('C04|v2|reply|not-sent-in-time', f'reply at +{case["dt"]}ms (lifetime {lt}) was not transmitted'))
